@@ -738,3 +738,50 @@ func GenTemplate(r *core.Rng, o TmplOpts) Tmpl {
 	}
 	return t
 }
+
+// SplitText inserts n template comments ({{/**/}}, which produce no output) at seeded
+// positions of the static text of a template, i.e. outside every {{...}} action. The pieces
+// left and right of a comment are separate text nodes for the engine but adjacent bytes of
+// the output: a token (tag name, attribute name, comment delimiter, end tag, character
+// reference, URL scheme) that is torn this way must still be read as a browser reads it, or
+// the template must be refused.
+func SplitText(r *core.Rng, text string, n int) string {
+	for ; n > 0; n-- {
+		// positions outside actions
+		var pos []int
+		depth := 0
+		for i := 0; i <= len(text); i++ {
+			if depth == 0 && i > 0 && i < len(text) {
+				// not between the two braces of a delimiter
+				if !(text[i-1] == '{' && text[i] == '{') && !(text[i-1] == '}' && text[i] == '}') {
+					pos = append(pos, i)
+				}
+			}
+			if i+1 < len(text) && text[i] == '{' && text[i+1] == '{' {
+				depth = 1
+				i++
+				continue
+			}
+			if depth == 1 && i+1 < len(text) && text[i] == '}' && text[i+1] == '}' {
+				depth = 0
+				i++
+			}
+		}
+		if len(pos) == 0 {
+			return text
+		}
+		// prefer positions next to markup-significant bytes
+		var hot []int
+		for _, p := range pos {
+			if strings.ContainsRune("<>/-!&#;:=\"'", rune(text[p-1])) || strings.ContainsRune("<>/-!&#;:=\"'", rune(text[p])) {
+				hot = append(hot, p)
+			}
+		}
+		p := pos[r.Intn(len(pos))]
+		if len(hot) > 0 && r.Intn(3) != 0 {
+			p = hot[r.Intn(len(hot))]
+		}
+		text = text[:p] + "{{/**/}}" + text[p:]
+	}
+	return text
+}
